@@ -315,6 +315,18 @@ def run(ctx):
             piv = [x for x in walk(body_of(inv)) if x.get('kind') == 'IfStmt' and 'row_divisor' in N(if_parts(x)[0]) and any(t.get('kind') == 'CXXThrowExpr' for t in walk(if_parts(x)[1]))]
             ctx.check(len(piv) == 1, R, 'Matrix4<%s>|invert|zero-pivot' % T, inv, 'a zero pivot throws', 'zero-pivot handling changed')
 
+    # a const reference to an element that the function goes on to overwrite is not a captured value
+    n_al = 0
+    for f in w.functions:
+        q = strip_targs(w.qualname(f))
+        if not (q.startswith('phosg::Matrix4') or q.startswith('phosg::Vector')) or is_dependent_pattern(f, w) or body_of(f) is None:
+            continue
+        for vd, wn, rd in aliased_reference_locals(f):
+            n_al += 1
+            ctx.bad(R, '%s|aliased-reference|%s' % (w.qualname(f), vd.get('name')), vd, '`%s` is a reference to %s, which `%s` overwrites while the reference is still read at line %s: from that point it no longer holds the value it was meant to capture (take a copy)' % (vd.get('name'), src_text(kids(vd)[-1], 40), src_text(wn, 50), rd.get('_line')))
+    if not n_al:
+        ctx.ok(R, 'no-aliased-reference-locals', 'Vector-inl.hh', 'no const reference local aliases an element written while it is read', nontrivial=False)
+
     # ---------------- R4
     R = 'C20-R4'
     ri = ur.func('phosg::random_int')[0]
